@@ -336,6 +336,9 @@ class Body:
         if promoted_of is None:
             self.promoted = [Body(crate, pj, self, i) for i, pj in enumerate(j.get("promoted", []))]
 
+    def ret_is_result(self):
+        return "::Result<" in (self.local_tys[0] if self.local_tys else "")
+
     def is_fn(self):
         return self.kind in ("fn", "method", "closure")
 
